@@ -180,6 +180,32 @@ def gen_entry(r, rng, dom, pspace, prows, p_density=0.2):
 def gen_case(prop, seed, p_fault=0.6):
     r = rnd(seed, "gen")
     rng = np.random.default_rng(H(seed, "ref") % (2 ** 32))
+    if prop == "C06" and 0.04 <= rnd(seed, "single-side").random() < 0.09:
+        # "roof + body": a triangle united with a parallelogram one of whose edges lies on the LINE of a triangle leg,
+        # continuing beyond the leg's far corner, the body on the other side of that line (collinear boundary pieces:
+        # the normal on the overhang belongs to the body, not to the continued leg)
+        rq = rnd(seed, "roof-body")
+        roof = GG.gen_par(rq, "x", tri=True)
+        o = roof["o"]
+        d1 = [roof["c1"][0] - o[0], roof["c1"][1] - o[1]]
+        d2 = [roof["c2"][0] - o[0], roof["c2"][1] - o[1]]
+        if rq.random() < 0.5:
+            d1, d2 = d2, d1             # continue the other leg
+        al, be, ga = rq.uniform(0.2, 0.8), rq.uniform(1.4, 2.5), rq.uniform(0.4, 1.2)
+        bo = [GG.q(o[0] + al * d1[0], 1024.0), GG.q(o[1] + al * d1[1], 1024.0)]
+        body = {"k": "par", "var": "x", "o": bo,
+                "c1": [GG.q(o[0] + be * d1[0], 1024.0), GG.q(o[1] + be * d1[1], 1024.0)],
+                "c2": [GG.q(bo[0] - ga * d2[0], 1024.0), GG.q(bo[1] - ga * d2[1], 1024.0)]}
+        first = roof
+        if rq.random() < 0.4:
+            # a small hole inside the roof keeps the first operand a Boolean expression containing the triangle
+            cx, cy = o[0] + 0.3 * (d1[0] + d2[0]), o[1] + 0.3 * (d1[1] + d2[1])
+            first = {"k": "cut", "a": roof, "b": {"k": "circ", "var": "x", "c": [GG.q(cx), GG.q(cy)],
+                                                   "r": GG.q(0.12 * min(math.hypot(*d1), math.hypot(*d2)))}, "contained": False}
+        dom = {"k": "bnd", "d": {"k": "union", "a": first, "b": body} if rq.random() < 0.8 else {"k": "union", "a": body, "b": first}}
+        return {"format": 1, "property": prop, "engine": "geosim", "seed": seed, "rng": H(seed, "rng"), "dom": dom,
+                "pspace": [], "prows": [], "entry": {"kind": "domain", "method": rq.choice(("random", "grid")),
+                                                      "n": rq.choice((20, 60, 150))}, "fault": None}
     if prop == "C06" and rnd(seed, "single-side").random() < 0.04:
         # one end of an interval (boundary_left / boundary_right), possibly after a partial evaluation that fixes the
         # variable the OTHER end depends on (the end itself is constant: F25 covers the remaining case)
